@@ -115,10 +115,8 @@ func c12One(r *Run, src string, host interface{}, hostName string, budget time.D
 		r.Count("compile-error")
 	}
 	// Debug
-	if !strings.Contains(src, "\n") {
-		if pan, msg := protect(func() { yae.Debug(src, host) }); pan {
-			r.Violate("panic-escapes:debug", what, firstLine(msg))
-		}
+	if pan, msg := protect(func() { yae.Debug(src, host) }); pan {
+		r.Violate("panic-escapes:debug", what, firstLine(msg))
 	}
 	// the budget grows quadratically with the input beyond 200 runes (the property allows polynomial growth)
 	if n := len([]rune(src)); n > 200 {
@@ -170,7 +168,8 @@ func runC12(r *Run) {
 	budget := 400 * time.Millisecond
 	corpus := []string{`[1,2][5]`, `5 % 0`, `match("[", "a")`, `m["zz"]`, `xs[7]`, `x + `, ``, ` `, `((((`, `1 +* 2`, `"unterminated`, `'x`, "`", `a.`, `.`, `?`, `x ? 1`, `[1,`, `{a:`, `f(`,
 		`1e999`, `0x8000000000000000`, `"\/"`, `1.2.3`, "x\n+\n1", `xs[0/0]`, `xs[1e308*10]`, `get(xs, 0/0, 1)`, `string(0/0)`, `max([])`, `strtotime("garbage")`, `'garbage'`,
-		`'2020-01-02 03:04:05' - 'x'`, `x.y.z`, `s.len().abs()`, `(x)(1)`, `x(1)`, `[[[[[[[[1]]]]]]]]`}
+		`'2020-01-02 03:04:05' - 'x'`, `x.y.z`, `s.len().abs()`, `(x)(1)`, `x(1)`, `[[[[[[[[1]]]]]]]]`,
+		"x + 1\n", "\nx + 1", "  x + 1 \r\n  ", "x +\n1", "x + 1\n\n", "\t\nx", "x\r", "1\n", "\"a\nb\"", "len(\"a\nb\")\n", "x + 1 ", " x", "x\u2028", "x\u0085"}
 	for _, c := range corpus {
 		c12One(r, c, good, "map", budget)
 		c12Api(r, c)
